@@ -76,6 +76,7 @@ func transcodeError(w *responseWrapper, t transcoding.HTTPResponseTranscoder, er
 	} else {
 		var buf bytes.Buffer
 		fmt.Fprintf(&buf, "unable to transcode response status code = %s desc = %s: %s\n", st.Code(), st.Message(), transcodeErr)
+		respData = buf.Bytes()
 
 		// copied from http.Error function, seems safe
 		w.Header()[contentTypeHeader] = []string{"text/plain; charset=utf-8"}
